@@ -6,13 +6,26 @@ spec -> code : TLC explores AttrSet.tla (caller's slice, current Set, StreamTabl
                replayed by harness/c05 on the real attribute package and every component of the projection
                (ToSlice, caller's slice, filtered-out items, Len, Value/HasValue, Iter, merge sequence,
                Equals both ways, Equivalent() in a real Go map) is compared with the spec's successor.
+               AttrIter.tla: iterator HISTORIES -- several Iterator / MergeIterator variables over immutable Sets,
+               every sequence of Next / Attribute / IndexedAttribute / Label / IndexedLabel / Len / ToSlice the
+               documentation allows up to a bound; each edge carries the set of admitted return values and the
+               real return value of every call is compared with it.
+               A "sizes" configuration drives every distinct-count 0..13 through every constructor and through
+               Set.Filter (one fixed-size array type per count up to 10, reflection beyond); vacuity counters per
+               count must be non-zero.
 code -> spec : harness/c05 runs seeded random programs (up to 49 keys, lists up to 500 items, all eight value
                types incl. NaN, +-0, empty/nil and very long slices, permuted / duplicated variants of earlier
-               lists, all filter kinds); TLC validates every recorded observation against AttrModel via
-               Trace_AttrSet.tla.
+               lists, all filter kinds, long random iterator call sequences over Sets of 0..40 attributes, size
+               sweeps); TLC validates every recorded observation against AttrModel via Trace_AttrSet.tla.
+concurrent   : Sets are immutable values shared between goroutines: 8..32 goroutines observe the same Sets, build
+               fresh ones and encode with the shared default encoder at once; every DISTINCT observation is
+               validated by TLC with the same clauses (a concurrent observation must equal the sequential result).
+               No verdict from timing. Thorough tier: the same phase once more under -race (auxiliary monitor).
 """
+import glob
 import json
 import os
+import re
 
 S = "AttrSet"
 
@@ -66,12 +79,177 @@ def configs(tier):
     return c
 
 
+def attr(k, v):
+    return "[k |-> %d, %s" % (k, v[1:])
+
+
+def seq(items):
+    return "<<%s>>" % ", ".join(items)
+
+
+def bulks():
+    """Prepared slices for the sizes configuration: n = 1..13 distinct keys in scrambled order plus
+    superseded duplicates (two shapes per n)."""
+    out = []
+    for n in range(1, 14):
+        desc = [attr(k, I1 if k % 2 else SA) for k in range(n, 0, -1)]
+        out.append(seq([attr(1, SA), attr(n, SA)] + desc))                      # duplicates first, keys descending
+        odd_even = [attr(k, SA if k % 3 else I1) for k in list(range(1, n + 1, 2)) + list(range(2, n + 1, 2))]
+        mid = len(odd_even) // 2
+        out.append(seq(odd_even[:mid] + [attr((n + 1) // 2, I1)] + odd_even[mid:] + ([] if n < 3 else [attr(2, I1)])))
+    return tset(out)
+
+
+NSIZE = 13
+SIZE_PREDS = ([pred("allow", range(1, k + 1)) for k in range(0, NSIZE + 1)]
+              + [pred("deny", range(k + 1, NSIZE + 1)) for k in (0, 3, 9, 10, 12)] + [pred("nil"), pred("none")])
+SIZES = dict(name="sizes", NKEYS=NSIZE, VALS=tset([I1, SA]), PREDS=tset(SIZE_PREDS), OPS='{"Bulk","New","NewF","Filter"}',
+             MAXLIST=0, MINLIST=0, MAXOPS=2, BULKS=None)
+
+# ---- iterator histories (AttrIter.tla)
+A1, A2, A3, A4 = attr(1, I1), attr(2, SA), attr(3, FSNAN), attr(4, BT)
+B2, B3, B1 = attr(2, I1), attr(3, SE), attr(1, SS1)
+S0, S1, S2, S3, S4 = seq([]), seq([A2]), seq([A1, A3]), seq([A1, A2, A4]), seq([A1, A2, A3, A4])
+
+
+def pair(a, b):
+    return "<<%s, %s>>" % (a, b)
+
+
+PAIRS = [pair(S0, S0), pair(S0, S2), pair(S2, S0), pair(S1, seq([B2])), pair(S2, seq([B2])), pair(seq([B2]), S2),
+         pair(S3, seq([B1, B3])), pair(seq([B1, B3]), S3), pair(S2, S2), pair(seq([A1]), seq([A4])), pair(seq([A4]), seq([A1]))]
+
+
+def iter_configs(tier):
+    th = tier == "thorough"
+    return [
+        # one iterator: every history of up to MAXOPS calls (walk past the end, slices midway / twice, ...)
+        dict(name="iter-one", SETS=tset([S0, S1, S2, S3] + ([S4] if th else [])), PAIRS="{}", NIT=1, MAXOPS=10 if th else 8),
+        # two iterators over the same / different Sets, interleaved
+        dict(name="iter-two", SETS=tset([S0, S1, S2] + ([S3] if th else [])), PAIRS="{}", NIT=2, MAXOPS=7 if th else 6),
+        # merge iterators: empty / exhausted operands, equal keys (first Set wins), interleaved keys
+        dict(name="iter-merge", SETS="{}", PAIRS=tset(PAIRS), NIT=1, MAXOPS=9 if th else 7),
+        # a merge iterator next to a plain one over one of its operands
+        dict(name="iter-mixed", SETS=tset([S2]), PAIRS=tset([PAIRS[4], PAIRS[5], PAIRS[1]]), NIT=2, MAXOPS=7 if th else 6),
+    ]
+
+
 SIM = dict(name="sim-boundary", NKEYS=12, VALS=tset([I1, SA]), PREDS=tset([pred("allow", (1, 5, 9, 12)), pred("deny", (2, 11))]),
            OPS='{"Push","New","NewF","Filter","Merge","Cmp","Record"}', MAXLIST=30, MINLIST=16, MAXOPS=4)
 
 
 def defines(c):
-    return {k: c[k] for k in ("NKEYS", "VALS", "PREDS", "OPS", "MAXLIST", "MINLIST", "MAXOPS")}
+    d = {k: c[k] for k in ("NKEYS", "VALS", "PREDS", "OPS", "MAXLIST", "MINLIST", "MAXOPS")}
+    d["BULKS"] = c.get("BULKS") or "{}"
+    return d
+
+
+def merge_counters(ctx, name, counters):
+    cnt = ctx.extra.setdefault(name, {})
+    for k, v in counters.items():
+        cnt[k] = cnt.get(k, 0) + v
+    return cnt
+
+
+def replay_iter_edges(ctx, binp, c, r, reps):
+    total = 0
+    for rep in reps:
+        out = os.path.join(ctx.work, "replay-%s-%d.json" % (c["name"], rep))
+        ctx.run([binp, "iter", "-edges", r["edges_file"], "-nkeys", "4", "-rep", str(rep), "-out", out], timeout=1800)
+        res = json.load(open(out))
+        total += res["executed"]
+        ctx.traces_validated += res["executed"]
+        ctx.evaluations += res["evaluations"]
+        merge_counters(ctx, "iter_replay_counters", res["counters"])
+        ctx.add_samples(res["samples"][:1], cap=4)
+        for m in res["mismatches"]:
+            sig = {"dir": "replay", "cfg": c["name"]}
+            sig.update(m["case"])
+            ctx.violation(sig, replay={"acts": (m.get("path") or []) + [m.get("act")], "keys_rep": rep,
+                                       "admitted": m.get("want"), "got": m.get("got"), "detail": m.get("detail")})
+        for s in res["inconclusive"]:
+            ctx.note_inconclusive(s)
+    return total
+
+
+def trace_violations(ctx, viols, trace, direction):
+    """Classify the VIOL lines of one validated trace into signatures (matched against known findings)."""
+    lines = None
+    for v in viols:
+        if "raw" in v:
+            ctx.note_inconclusive("unparsable VIOL line: %s" % v["raw"][:200])
+            continue
+        if lines is None:
+            lines = open(trace).read().splitlines()
+        # scenario = its New line + every line of the scenario up to the failing one
+        scen = []
+        i = v["line"] - 1
+        while i >= 0:
+            rec = json.loads(lines[i])
+            scen.append(rec)
+            if rec["ev"] == "New":
+                break
+            i -= 1
+        scen.reverse()
+        d = direction
+        if scen and scen[-1].get("conc"):
+            d = direction + "-concurrent-phase"
+        elif direction != "random":
+            d = direction + "-setup"
+        short = scen if len(scen) <= 40 else scen[:1] + scen[-8:]
+        ctx.violation({"dir": d, "why": v["kind"], "ev": v["ev"], "nan_f64slice": v["nanslice"]},
+                      replay={"scenario": clip(short), "line": v["line"]})
+
+
+def clip(x, n=400):
+    """Shorten very long strings (wide values) inside a replay artefact."""
+    if isinstance(x, str):
+        return x if len(x) <= n else x[:n // 2] + "...[%d chars]..." % len(x) + x[-n // 4:]
+    if isinstance(x, list):
+        return [clip(e, n) for e in x]
+    if isinstance(x, dict):
+        return {k: clip(e, n) for k, e in x.items()}
+    return x
+
+
+def conc_phase(ctx, binp, name, g_ops_enc, race=False):
+    """Goroutines sharing immutable Sets; every distinct observation validated by TLC."""
+    trace = os.path.join(ctx.work, name + ".ndjson")
+    resf = os.path.join(ctx.work, name + ".json")
+    env = {}
+    if race:
+        for f in glob.glob(os.path.join(ctx.work, "race-report.*")):
+            os.remove(f)
+        env["GORACE"] = "halt_on_error=0 exitcode=0 log_path=%s" % os.path.join(ctx.work, "race-report")
+    g, ops, enc = g_ops_enc
+    ctx.run([binp, "conc", "-g", str(g), "-ops", str(ops), "-enc", str(enc), "-out", trace, "-res", resf], timeout=1800, env=env)
+    res = json.load(open(resf))
+    for m in res["mismatches"]:
+        ctx.violation({"dir": name, "why": "panic"}, replay=m)
+    viols, accepted = ctx.validate_trace(S, "Trace_AttrSet", "Trace_AttrSet.cfg", trace, timeout=3000, name="trace-" + name)
+    ctx.traces_validated += res["counters"].get("conc_distinct_observations", 0)
+    ctx.evaluations += res["counters"].get("conc_observations", 0)
+    ctx.extra[name + "_counters"] = {k: v for k, v in res["counters"].items() if "size_" not in k}
+    ctx.extra[name + "_trace_lines_validated"] = accepted
+    trace_violations(ctx, viols, trace, name)
+    need = ["conc_ev_Obs", "conc_ev_Cmp", "conc_ev_Filter", "conc_ev_Merge", "conc_ev_Script", "conc_ev_Build", "conc_ev_Enc",
+            "conc_cmp_equal", "conc_cmp_unequal", "conc_filters_with_dropped"]
+    missing = [k for k in need if not res["counters"].get(k)]
+    if missing:
+        ctx.note_inconclusive("%s never did: %s" % (name, missing))
+    if race:
+        reports = []
+        for f in sorted(glob.glob(os.path.join(ctx.work, "race-report.*"))):
+            reports += [b for b in open(f, errors="replace").read().split("==================") if "DATA RACE" in b]
+        ctx.extra["race_reports"] = len(reports)
+        for b in reports:
+            frames = re.findall(r"go\.opentelemetry\.io/otel/attribute\.([^\s(]*\(?[^\s()]*\)?[^\s(]*)\(", b)
+            if frames:
+                # a race inside the attribute package while goroutines only READ shared Sets / use the shared encoder
+                ctx.violation({"dir": "race", "why": "data-race", "in": frames[0]}, replay={"report": b[:6000]})
+            else:
+                ctx.note_inconclusive("race report without attribute-package frames (harness?): %s" % b[:300])
+    return res
 
 
 def replay_edges(ctx, binp, c, r, reps, sample=0):
@@ -108,14 +286,40 @@ def run(ctx):
     # ---- spec -> code, exhaustive
     reps = range(5) if th else [ctx.seed % 5]
     edges = 0
-    first = True
-    for c in configs(ctx.tier):
+    zero = None
+    SIZES["BULKS"] = bulks()
+    for c in configs(ctx.tier) + [SIZES]:
         r = ctx.tlc(S, "MC_AttrSet", "MC_AttrSet.cfg", defines=defines(c), want_edges=True, name=c["name"],
-                    timeout=2400, coverage=first)
-        if first:
-            ctx.extra["zero_coverage_actions"] = r["zero_cov"]
-            first = False
+                    timeout=2400, coverage=True)
+        zero = set(r["zero_cov"]) if zero is None else zero & set(r["zero_cov"])
         edges += replay_edges(ctx, binp, c, r, reps)
+    ctx.extra["zero_coverage_actions"] = sorted(zero)      # actions no configuration ever took
+    # every distinct-count 0..12 through every constructor and Filter (with and without removed attributes)
+    rc = ctx.extra.get("replay_counters", {})
+    missing = ["size_%s_%d" % (route, n) for route in ("New", "NewF", "NewFDrop", "Filter", "FilterDrop") for n in range(0, 13)
+               if not rc.get("size_%s_%d" % (route, n))]
+    if missing:
+        ctx.note_inconclusive("edge replay never produced: %s" % missing)
+    ctx.extra["replay_sizes_hit"] = {route: [rc.get("size_%s_%d" % (route, n), 0) for n in range(0, 14)]
+                                     for route in ("New", "NewF", "NewFDrop", "Filter", "FilterDrop")}
+    # ---- spec -> code, iterator histories
+    izero = None
+    iedges = 0
+    for c in iter_configs(ctx.tier):
+        r = ctx.tlc(S, "MC_AttrIter", "MC_AttrIter.cfg", defines={k: c[k] for k in ("SETS", "PAIRS", "NIT", "MAXOPS")},
+                    want_edges=True, name=c["name"], timeout=2400, coverage=True)
+        izero = set(r["zero_cov"]) if izero is None else izero & set(r["zero_cov"])
+        iedges += replay_iter_edges(ctx, binp, c, r, reps)
+    ctx.extra["iter_zero_coverage_actions"] = sorted(izero)
+    ctx.extra["iter_edges_replayed"] = iedges
+    edges += iedges
+    ic = ctx.extra.get("iter_replay_counters", {})
+    need = ["iterop_Next", "iterop_AttrAttribute", "iterop_AttrIndexedAttribute", "iterop_AttrLabel", "iterop_AttrIndexedLabel",
+            "iterop_Len", "iterop_ToSlice", "toslice_after_next", "toslice_after_toslice", "iter_edges_two_iterators",
+            "iter_edges_with_alternatives"]
+    missing = [k for k in need if not ic.get(k)]
+    if missing or izero:
+        ctx.note_inconclusive("iterator replay never did: %s; actions never taken: %s" % (missing, sorted(izero)))
     # ---- spec -> code, -simulate across the 10/11-element boundary
     nsim = 60 if th else 8
     r = ctx.tlc(S, "MC_AttrSet", "MC_AttrSet.cfg", defines=defines(SIM), want_edges=True, name=SIM["name"],
@@ -137,38 +341,38 @@ def run(ctx):
     ctx.evaluations += accepted
     ctx.extra["random_programs"] = n
     ctx.extra["trace_lines_validated"] = accepted
-    ctx.extra["random_counters"] = res["counters"]
-    lines = None
-    for v in viols:
-        if "raw" in v:
-            ctx.note_inconclusive("unparsable VIOL line: %s" % v["raw"][:200])
-            continue
-        if lines is None:
-            lines = open(trace).read().splitlines()
-        # scenario = its New line + every line of the scenario up to the failing one
-        scen = []
-        i = v["line"] - 1
-        while i >= 0:
-            rec = json.loads(lines[i])
-            scen.append(rec)
-            if rec["ev"] == "New":
-                break
-            i -= 1
-        scen.reverse()
-        ctx.violation({"dir": "random", "why": v["kind"], "ev": v["ev"], "nan_f64slice": v["nanslice"]},
-                      replay={"scenario": scen if len(scen) <= 40 else scen[:1] + scen[-8:], "line": v["line"]})
+    ctx.extra["random_counters"] = {k: v for k, v in res["counters"].items() if "size_" not in k}
+    trace_violations(ctx, viols, trace, "random")
     # vacuity of the random driver: the interesting regimes must have been reached
     need = ["sets_len_9_10_fixed", "sets_len_11_12_reflect", "sets_len_13_up", "builds_with_superseded",
-            "builds_with_dropped", "filters_with_dropped", "cmp_equal", "cmp_unequal", "record_hits", "long_lists"]
+            "builds_with_dropped", "filters_with_dropped", "cmp_equal", "cmp_unequal", "record_hits", "long_lists",
+            "iter_open_set", "iter_open_merge", "iter_Next", "iter_next_false", "iter_Attribute", "iter_IndexedAttribute",
+            "iter_Label", "iter_IndexedLabel", "iter_Len", "iter_ToSlice", "iter_toslice_midway", "sweeps"]
+    need += ["size_%s_%d" % (route, k) for route in ("New", "NewF", "NewFDrop", "Filter", "FilterDrop") for k in range(0, 13)]
     missing = [k for k in need if not res["counters"].get(k)]
     if missing:
         ctx.note_inconclusive("random driver never reached: %s" % missing)
+    ctx.extra["random_sizes_hit"] = {route: [res["counters"].get("size_%s_%d" % (route, k), 0) for k in range(0, 14)]
+                                     for route in ("New", "NewF", "NewFDrop", "Filter", "FilterDrop")}
+    # ---- concurrent use of immutable Sets (code -> spec, same oracle)
+    conc_phase(ctx, binp, "conc", (0, 1200 if th else 400, 20000 if th else 6000))
+    if th:
+        # auxiliary monitor: the same phase under the race detector (goroutines only read shared Sets)
+        binr = ctx.go_build("c05", race=True)
+        conc_phase(ctx, binr, "conc-race", (0, 200, 1500), race=True)
     ctx.assumptions += [
         "key ranks stand for the keys of the authored tables in harness/c05/values.go (byte order checked at start-up)",
         "the text of a non-string value in the default encoding is Value.Emit() of the free-standing value; "
         "escaped texts of keys and strings come from authored tables",
         "+0 / -0 inside a FLOAT64SLICE may or may not be the same value (statement silent); everything else bit-exact",
         "INVALID-typed values (zero Value) are outside the statement's eight types and are not generated",
+        "iterator accessors (Attribute, IndexedAttribute, Label, IndexedLabel) are called only where documented (after Next "
+        "returned true); where ToSlice leaves the iterator is not documented: every position is admitted afterwards and "
+        "later return values must be explained by one of them",
+        "concurrent phase: detection by volume, the schedule is not controlled (the package runs no user code while "
+        "encoding); a concurrent observation of an immutable Set must equal the sequential result; -race (thorough) is an "
+        "auxiliary monitor, not model checking",
     ]
     ctx.extra["rule"] = ("edges: every transition of AttrSet.tla for the listed configs (+ -simulate behaviours at 12 keys); "
-                         "random: seeded programs; a case is distinct by (key table, action sequence)")
+                         "iterator edges: every transition of AttrIter.tla; random: seeded programs; a case is distinct by "
+                         "(key table, action sequence); concurrent: distinct (event, operands, observation) triples")
